@@ -1,6 +1,7 @@
 import PytaskProofs.Lemmas.EngineInv
 import PytaskProofs.Lemmas.StateExit
 import PytaskProofs.Lemmas.EngineExample
+import PytaskProofs.Lemmas.StateStructural
 /-!
 # C03 — nothing is re-executed unless something it depends on changed
 
@@ -94,6 +95,50 @@ theorem C03_repeat_exit0 (F : BodyFn) (P : Project) (cfg1 cfg2 : Cfg) (w : World
   C03_repeat F P cfg1 cfg2 w picks1 picks2 r1 r2 hwf h1 hdry
     (all_good_of_exit0 hwf h1 hexit hcomplete hdry hnoskip) hforce h2
 
+/-- **C03_history_structural** (across project edits). Let the rows of `t` have matched in a world
+`w₁` of an earlier project `P₁` (graph `g₁`) — e.g. at the end of a build that reported `t` SUCCESS,
+PERSISTENCE or SKIP_UNCHANGED.  Afterwards tasks may be added, removed or rewired (`P₂`, `g₂`) and
+files edited.  If the edits did not touch `t` — every neighbour `t` has now was a neighbour then, each
+has the state it had (contents; time stamps are not part of the state) and `t`'s rows are as they
+were — then in a non-forced build of `P₂` the protocol of `t` neither invokes the body nor changes
+anything.  (Neighbours may even have been *dropped*: that is finding F11b seen from C03's side.) -/
+theorem C03_history_structural (F : BodyFn) (P₁ P₂ : Project) (g₁ g₂ : G) (cfg : Cfg) (s : Sess) (t : TaskSpec)
+    (w₁ : World) (hforce : cfg.force = false) (h₁ : RowsMatch P₁ g₁ w₁ t.id)
+    (hnb : ∀ v ∈ neighbours g₂ t.id, v ∈ neighbours g₁ t.id)
+    (hsame : ∀ v ∈ neighbours g₂ t.id,
+      stateOf P₂ s.w v = stateOf P₁ w₁ v ∧ row s.w.db t.id v = row w₁.db t.id v) :
+    (protocol F P₂ g₂ cfg s t).log = s.log ∧ (protocol F P₂ g₂ cfg s t).w = s.w := by
+  apply C03_step F P₂ g₂ cfg s t hforce
+  intro v hv
+  obtain ⟨h, h1, h2⟩ := h₁ v (hnb v hv)
+  exact ⟨h, by rw [(hsame v hv).1, h1], by rw [(hsame v hv).2, h2]⟩
+
+/-- **C03_history_build** (whole build, every legal schedule). In a non-forced build of the current
+project from world `w`: if the rows of `t` match at the start of the build and, when `t`'s turn comes
+(after the picks `pre`), every neighbour of `t` still has the state it had at the start — tasks picked
+earlier did not run, or re-ran to identical outputs, or are unrelated (added, removed, rewired
+elsewhere) — then the protocol of `t` does not invoke its body and changes nothing. -/
+theorem C03_history_build (F : BodyFn) (P : Project) (cfg : Cfg) (w : World) (g : G) (marks : List Nat)
+    (so so' so1 : Sorter) (s' s1 : Sess) (pre post : List Nat) (t : Nat) (spec : TaskSpec)
+    (hwf : WF P) (hforce : cfg.force = false)
+    (hdag : createDag P cfg = .ok (g, marks)) (hso : Sorter.fromDag g isTaskV (prioFn P) = .ok so)
+    (hloop : buildLoop F P g cfg so { w := w, skipMarks := marks } (pre ++ t :: post) = .ok (so', s'))
+    (hpre : buildLoop F P g cfg so { w := w, skipMarks := marks } pre = .ok (so1, s1))
+    (hfind : Project.find? P t = some spec)
+    (hrows : RowsMatch P g w t)
+    (hstable : ∀ v ∈ neighbours g t, stateOf P s1.w v = stateOf P w v) :
+    (protocol F P g cfg s1 spec).log = s1.log ∧ (protocol F P g cfg s1 spec).w = s1.w := by
+  have hid : spec.id = t := find?_id hfind
+  obtain ⟨hnd, _⟩ := picks_order (graphOK_of_createDag hwf hdag) hso hloop
+  have htpre : t ∉ pre := by
+    intro h
+    exact (List.nodup_append.1 hnd).2.2 t h t (by simp) rfl
+  apply C03_step F P g cfg s1 spec hforce
+  rw [hid]
+  intro v hv
+  obtain ⟨h, h1, h2⟩ := hrows v hv
+  exact ⟨h, by rw [hstable v hv, h1], by rw [buildLoop_db_frame t pre hpre htpre v]; exact h2⟩
+
 /-! ## non-vacuity (project `exP`: input 10 → task 0 → 20 → task 1 → 21, 22; see `Lemmas/EngineExample.lean`) -/
 
 /-- The hypotheses of `C03_repeat` hold for the first build of the example project; hence every
@@ -116,5 +161,28 @@ the input executes both again, a build after an edit of task 1's module executes
 example : exR1.log = [0, 1] ∧ exR2.log = [0, 1] ∧ exR3.log = [1] ∧
     (match build exF exP { force := true } exR1.w [0, 1] with | .ok r => r.log | .error _ => []) = [0, 1] := by
   decide
+
+/-- `C03_history_structural` on concrete data: the rows of task 0 matched after the second build of
+`exP`; then task 1 was rewired and its module edited (`exP'`, `exW3`); task 0 is untouched by that, so
+its protocol in a build of the new project runs nothing — and indeed the third build's log is `[1]`. -/
+example : (protocol exF exP' (modifyDag exP' (baseGraph exP')) {} { w := exW3 } exT0).log = [] ∧ exR3'.log = [1] := by
+  have hn1 : neighbours (modifyDag exP (baseGraph exP)) 0 = [21, 0, 41] := by decide
+  have hn2 : neighbours (modifyDag exP' (baseGraph exP')) 0 = [21, 0, 41] := by decide
+  refine ⟨(C03_history_structural exF exP exP' (modifyDag exP (baseGraph exP)) (modifyDag exP' (baseGraph exP')) {}
+    { w := exW3 } exT0 exR2.w rfl ?_ ?_ ?_).1, rfl⟩
+  · intro v hv
+    rw [show exT0.id = 0 from rfl, hn1] at hv
+    simp only [List.mem_cons, List.mem_nil_iff, or_false] at hv
+    rcases hv with rfl | rfl | rfl
+    · exact ⟨6, by decide, by decide⟩
+    · exact ⟨1, by decide, by decide⟩
+    · exact ⟨7, by decide, by decide⟩
+  · intro v hv
+    rw [show exT0.id = 0 from rfl, hn2] at hv
+    rw [show exT0.id = 0 from rfl, hn1]; exact hv
+  · intro v hv
+    rw [show exT0.id = 0 from rfl, hn2] at hv
+    simp only [List.mem_cons, List.mem_nil_iff, or_false] at hv
+    rcases hv with rfl | rfl | rfl <;> exact ⟨by decide, by decide⟩
 
 end Pytask
